@@ -35,3 +35,5 @@ pub open spec fn pick<T>(a: Option<T>, b: Option<T>) -> Option<T> { if a is Some
 
 pub uninterp spec fn dur_secs(d: Duration) -> u64;
 pub assume_specification [Duration::as_secs] (d: &Duration) -> (r: u64) ensures r == dur_secs(*d);
+pub uninterp spec fn dur_is_zero(d: Duration) -> bool;
+pub assume_specification [Duration::is_zero] (d: &Duration) -> (r: bool) ensures r == dur_is_zero(*d);
